@@ -1468,6 +1468,10 @@ class Distributions(object):
         self._precalc(IM.shape)
 
         # apply weighting and folding
+        if not np.issubdtype(IM.dtype, np.inexact):
+            # (integer images would overflow in products and sums and be
+            # rounded by interpolation)
+            IM = IM.astype(float)
         if self.weights is not None:
             IM = self.weights * IM  # (not *=)
 
